@@ -1,2 +1,347 @@
-#define XV_INV_OLADD 1
-#define XV_HAVOC_OLADD h = 0; nodes.last->next = 0; head = 0
+/* unit rlist - deletable_object, delete_objects, retire_list, counting_retire_list, orphan_list, orphan (C02).
+ * Contracts, ghost state and harnesses only; all function bodies come from lowered.h (extracted from /repo on every run). */
+#include <stdint.h>
+#include <stddef.h>
+struct node;
+static void mon_cas(void* addr, struct node* e, struct node* d, _Bool ok, int o);
+static void mon_rmw(void* addr, struct node* oldv, struct node* newv, int o);
+static void mon_store(void* addr);
+#define XV_ON_CAS(addr, e, d, ok, order) mon_cas((void*)(addr), (struct node*)(e), (struct node*)(d), (ok), (order))
+#define XV_ON_RMW(addr, oldv, newv, order) mon_rmw((void*)(addr), (struct node*)(oldv), (struct node*)(newv), (order))
+#define XV_ON_STORE(addr, val, order) mon_store((void*)(addr))
+#include "xv.h"
+int xv_threw; uint64_t xv_clock, xv_rmw_old; _Bool xv_cas_ok;
+
+#ifndef XV_L
+#define XV_L 3
+#endif
+#ifdef XV_REAL_DELETE_OBJECTS
+#define NN (3 * XV_L + 1)          /* orphan: three disjoint lists and one node outside */
+#else
+#define NN (2 * XV_L + 1)          /* pool: two disjoint lists of up to XV_L nodes and one node outside */
+#endif
+
+/* ---- the deleter: opaque value with ghost identity and life-cycle state ---- */
+enum { D_RAW = 0, D_LIVE = 1, D_MOVED = 2, D_DEAD = 3 };
+#define EMPTY_ID (-1)              /* all instances of an empty deleter type are the same deleter */
+typedef struct { int id; unsigned char st; } Deleter;
+struct node { struct node* next; Deleter _deleter_buffer;
+              /* ghost */ unsigned deleted; int deleted_by; };
+typedef struct node Derived;
+struct retired_nodes { struct node* first; struct node* last; };
+struct retire_list { struct retired_nodes _nodes; };
+struct counting_retire_list { struct retire_list list; size_t counter; };
+struct orphan_list { struct node* head; };
+#define EPOCHS 3
+struct orphan { unsigned target_epoch; struct node* retire_lists[EPOCHS]; };
+static const struct retired_nodes xv_no_nodes = {0, 0};
+#define XV_ARRAY_SIZE(a) (sizeof(a) / sizeof((a)[0]))
+#define XV_AS_DELETER(buf) (buf)
+
+struct node pool[NN];
+static struct node* nondet_node(void) { unsigned k = nondet_uint(); return k < NN ? &pool[k] : (struct node*)0; }
+
+unsigned ev_invoke, ev_destroy, ev_place; int ev_invoked_id; struct node* ev_invoked_on; unsigned char ev_buf_at_invoke;
+static Deleter XV_MOVE_CONSTRUCT(Deleter* src) {
+  XV_OBL("rlist.delete_self.own_deleter_once", src->st == D_LIVE);
+  Deleter d; d.id = src->id; d.st = D_LIVE; src->st = D_MOVED; return d;
+}
+static void XV_DESTROY(Deleter* d) {
+  XV_OBL("rlist.delete_self.own_deleter_once", d->st == D_LIVE || d->st == D_MOVED);
+  d->st = D_DEAD; ev_destroy++;
+}
+static Deleter XV_DEFAULT_CONSTRUCT(void) { Deleter d; d.id = EMPTY_ID; d.st = D_LIVE; return d; }
+static void XV_PLACEMENT_MOVE(Deleter* dst, Deleter* src) {
+  XV_OBL("rlist.set_deleter.stores", src->st == D_LIVE);
+  dst->id = src->id; dst->st = D_LIVE; src->st = D_MOVED; ev_place++;
+}
+/* the call operator of the deleter: destroys and frees the object -> the node's memory is gone (poisoned) */
+static void XV_INVOKE(Deleter* d, struct node* obj) {
+  XV_OBL("rlist.delete_self.own_deleter_once", d->st == D_LIVE);
+  ev_invoke++; ev_invoked_id = d->id; ev_invoked_on = obj; ev_buf_at_invoke = obj->_deleter_buffer.st;
+  obj->deleted++; obj->deleted_by = d->id;
+  obj->next = nondet_node(); obj->_deleter_buffer.st = nondet_uchar(); obj->_deleter_buffer.id = nondet_int();
+}
+
+/* ---- contract stub of the virtual delete_self (proved for both variants by runs ne, ne_delete, e) ---- */
+_Bool g_double_delete;
+static void n_delete_self(struct node* n) {
+  if (n->deleted != 0) g_double_delete = 1;
+  n->deleted++; n->deleted_by = n->_deleter_buffer.id;
+  n->next = nondet_node(); n->_deleter_buffer.st = nondet_uchar();         /* freed memory */
+}
+#define N_delete_self(n) n_delete_self(&(n))
+#define RL_push(l, n) rl_push(&(l), (n))
+#define RL_steal(l) rl_steal(&(l))
+#define RL_empty(l) rl_empty(&(l))
+
+/* ---- monitors (orphan_list) ---- */
+struct orphan_list* mon_ol; struct node* mon_last;
+unsigned mon_cas_n, mon_cas_ok_n, mon_xchg_n, mon_store_n; struct node *mon_cas_e, *mon_cas_d, *mon_cas_lastnext, *mon_xchg_old, *mon_xchg_new; int mon_cas_order, mon_xchg_order;
+static void mon_cas(void* addr, struct node* e, struct node* d, _Bool ok, int o) {
+  if (mon_ol && addr == (void*)&mon_ol->head) { mon_cas_n++; if (ok) { mon_cas_ok_n++; mon_cas_e = e; mon_cas_d = d; mon_cas_order = o; mon_cas_lastnext = mon_last ? mon_last->next : (struct node*)0; } }
+}
+static void mon_rmw(void* addr, struct node* oldv, struct node* newv, int o) {
+  if (mon_ol && addr == (void*)&mon_ol->head) { mon_xchg_n++; mon_xchg_old = oldv; mon_xchg_new = newv; mon_xchg_order = o; }
+}
+static void mon_store(void* addr) { if (mon_ol && addr == (void*)&mon_ol->head) mon_store_n++; }
+
+/* ---- INT environment: other threads add to / adopt from the orphan list: head may become anything ---- */
+#ifdef XV_INT
+_Bool env_on; unsigned env_changes;
+void xv_env(void) { if (env_on && nondet_bool()) { mon_ol->head = nondet_node(); env_changes++; } }
+#endif
+
+/* ---- loop cut of the CAS retry loop in orphan_list::add ---- */
+struct node *g_first, *g_last, *g_head0; _Bool g_frame_ok_dummy;
+static _Bool chainA_intact(void);
+#ifdef XV_INT
+#define XV_INV_OLADD (nodes.first == g_first && nodes.last == g_last && chainA_intact() && mon_cas_ok_n == 0 && mon_store_n == 0)
+#else
+#define XV_INV_OLADD (nodes.first == g_first && nodes.last == g_last && chainA_intact() && self->head == g_head0 && h == g_head0 && mon_cas_ok_n == 0 && mon_store_n == 0)
+#endif
+#define XV_HAVOC_OLADD h = nondet_node(); nodes.last->next = nondet_node(); self->head = nondet_node() /* head: only changed by the environment */; mon_cas_n = nondet_uint()
+
+#define DELETE_OBJECTS(p) rl_delete_objects(&(p))
+#include "lowered.h"
+
+/* ---- specification helpers: chains over the pool ---- */
+/* in_*: harness inputs.  List A = pool[in_a[0]] -> ... -> pool[in_a[in_na-1]], list B likewise; all indices distinct */
+unsigned in_na, in_nb; unsigned char in_a[XV_L], in_b[XV_L]; unsigned char in_x;   /* in_x: a node outside both lists */
+static _Bool idx_ok(void) {
+  if (!(in_na <= XV_L && in_nb <= XV_L && in_x < NN)) return 0;
+  for (unsigned i = 0; i < XV_L; i++) {
+    if (i < in_na) { if (in_a[i] >= NN || in_a[i] == in_x) return 0; for (unsigned j = 0; j < i; j++) if (in_a[j] == in_a[i]) return 0; }
+    if (i < in_nb) { if (in_b[i] >= NN || in_b[i] == in_x) return 0; for (unsigned j = 0; j < i; j++) if (in_b[j] == in_b[i]) return 0;
+                     for (unsigned j = 0; j < XV_L; j++) if (j < in_na && in_a[j] == in_b[i]) return 0; }
+  }
+  return 1;
+}
+static void havoc_pool(void) {
+  for (unsigned i = 0; i < NN; i++) { pool[i].next = nondet_node(); pool[i]._deleter_buffer.id = nondet_int(); pool[i]._deleter_buffer.st = nondet_uchar();
+    pool[i].deleted = nondet_uint(); pool[i].deleted_by = nondet_int(); }
+  ev_invoke = 0; ev_destroy = 0; ev_place = 0; g_double_delete = 0;
+  mon_ol = 0; mon_last = 0; mon_cas_n = 0; mon_cas_ok_n = 0; mon_xchg_n = 0; mon_store_n = 0;
+}
+static struct node* link_chain(unsigned n, const unsigned char* idx, struct node* tail) {
+  struct node* first = tail;
+  for (unsigned i = XV_L; i-- > 0;) if (i < n) { pool[idx[i]].next = first; first = &pool[idx[i]]; pool[idx[i]].deleted = 0; }
+  return first;
+}
+static struct node* nodeA(unsigned i) { return &pool[in_a[i]]; }
+static struct node* nodeB(unsigned i) { return &pool[in_b[i]]; }
+/* the chain starting at p is exactly A (then B if with_b) then null */
+static _Bool is_chain(struct node* p, unsigned skip_a, _Bool with_a, _Bool with_b) {
+  if (with_a) for (unsigned i = 0; i < XV_L; i++) if (i >= skip_a && i < in_na) { if (p != nodeA(i)) return 0; p = p->next; }
+  if (with_b) for (unsigned i = 0; i < XV_L; i++) if (i < in_nb) { if (p != nodeB(i)) return 0; p = p->next; }
+  return p == 0;
+}
+static _Bool chainA_intact(void) {   /* A's internal links (not the last node's next) */
+  for (unsigned i = 0; i + 1 < XV_L; i++) if (i + 1 < in_na && nodeA(i)->next != nodeA(i + 1)) return 0;
+  return 1;
+}
+struct snap { struct node* next; Deleter buf; unsigned deleted; int deleted_by; } snap[NN];
+static void take_snap(void) { for (unsigned i = 0; i < NN; i++) { snap[i].next = pool[i].next; snap[i].buf = pool[i]._deleter_buffer; snap[i].deleted = pool[i].deleted; snap[i].deleted_by = pool[i].deleted_by; } }
+static _Bool same_as_snap(unsigned i, _Bool also_next) {
+  return (!also_next || pool[i].next == snap[i].next) && pool[i]._deleter_buffer.id == snap[i].buf.id && pool[i]._deleter_buffer.st == snap[i].buf.st
+         && pool[i].deleted == snap[i].deleted && pool[i].deleted_by == snap[i].deleted_by;
+}
+static _Bool in_A(unsigned k) { for (unsigned i = 0; i < XV_L; i++) if (i < in_na && in_a[i] == k) return 1; return 0; }
+static _Bool in_B(unsigned k) { for (unsigned i = 0; i < XV_L; i++) if (i < in_nb && in_b[i] == k) return 1; return 0; }
+static void havoc_inputs(void) {
+  /* WLOG (the functions never compare or order node addresses, and every pool node is havocked alike): list A is
+   * pool[0..na-1] in this order, list B is pool[L..L+nb-1], the outside node is pool[2L] */
+  in_na = nondet_uint(); in_nb = nondet_uint(); in_x = 2 * XV_L;
+  for (unsigned i = 0; i < XV_L; i++) { in_a[i] = i; in_b[i] = XV_L + i; }
+  XV_ASSUME(idx_ok());
+}
+
+/* =============================== deletable_object_impl =============================== */
+void h_ne(void) {
+  havoc_pool(); unsigned k = nondet_uint(); XV_ASSUME(k < NN); struct node* n = &pool[k];
+  XV_ASSUME(n->_deleter_buffer.st == D_RAW || n->_deleter_buffer.st == D_DEAD);       /* requires: no live deleter stored yet */
+  Deleter d; d.id = nondet_int(); d.st = D_LIVE; XV_ASSUME(d.id != EMPTY_ID);
+  take_snap();
+  ne_set_deleter(n, d);
+  XV_OBL("rlist.set_deleter.stores", n->_deleter_buffer.id == d.id && n->_deleter_buffer.st == D_LIVE && ev_place == 1);
+  XV_OBL("rlist.set_deleter.stores", n->next == snap[k].next && n->deleted == snap[k].deleted && ev_invoke == 0 && ev_destroy == 0);
+  unsigned o = nondet_uint(); XV_ASSUME(o < NN && o != k);
+  XV_OBL("rlist.set_deleter.stores", same_as_snap(o, 1));
+  ne_delete_self(n);
+  XV_OBL("rlist.delete_self.own_deleter_once", ev_invoke == 1 && ev_invoked_id == d.id && ev_invoked_on == n);
+  XV_OBL("rlist.delete_self.own_deleter_once", ev_destroy == 1 && ev_buf_at_invoke == D_DEAD);
+  XV_OBL("rlist.delete_self.own_deleter_once", n->deleted == snap[k].deleted + 1 && n->deleted_by == d.id && same_as_snap(o, 1));
+  XV_CANARY("ne.done");
+}
+void h_ne_delete(void) {            /* delete_self from any node state with a live stored deleter */
+  havoc_pool(); unsigned k = nondet_uint(); XV_ASSUME(k < NN); struct node* n = &pool[k];
+  XV_ASSUME(n->_deleter_buffer.st == D_LIVE);
+  int id = n->_deleter_buffer.id; take_snap();
+  unsigned o = nondet_uint(); XV_ASSUME(o < NN && o != k);
+  ne_delete_self(n);
+  XV_OBL("rlist.delete_self.own_deleter_once", ev_invoke == 1 && ev_invoked_id == id && ev_invoked_on == n);
+  XV_OBL("rlist.delete_self.own_deleter_once", ev_destroy == 1 && ev_buf_at_invoke == D_DEAD);
+  XV_OBL("rlist.delete_self.own_deleter_once", n->deleted == snap[k].deleted + 1 && n->deleted_by == id && same_as_snap(o, 1));
+  XV_CANARY("ne_delete.done");
+}
+void h_e(void) {
+  havoc_pool(); unsigned k = nondet_uint(); XV_ASSUME(k < NN); struct node* n = &pool[k];
+  Deleter d; d.id = EMPTY_ID; d.st = D_LIVE;
+  take_snap(); unsigned o = nondet_uint(); XV_ASSUME(o < NN);
+  e_set_deleter(n, d);
+  XV_OBL("rlist.set_deleter.stores", same_as_snap(o, 1) && ev_place == 0 && ev_invoke == 0 && ev_destroy == 0);
+  e_delete_self(n);
+  XV_OBL("rlist.delete_self.own_deleter_once", ev_invoke == 1 && ev_invoked_id == EMPTY_ID && ev_invoked_on == n && ev_destroy == 0);
+  XV_OBL("rlist.delete_self.own_deleter_once", n->deleted == snap[k].deleted + 1 && (o == k || same_as_snap(o, 1)));
+  XV_CANARY("e.done");
+}
+
+/* =============================== delete_objects =============================== */
+void h_delete_objects(void) {
+  havoc_pool(); havoc_inputs();
+  struct node* list = link_chain(in_na, in_a, 0);
+  take_snap();
+  rl_delete_objects(&list);
+  unsigned j = nondet_uint(); XV_ASSUME(j < NN);      /* an arbitrary node of the pool */
+  if (in_A(j)) XV_OBL("rlist.delete.own_deleter_once", pool[j].deleted == 1 && pool[j].deleted_by == snap[j].buf.id);
+  else XV_OBL("rlist.delete.own_deleter_once", same_as_snap(j, 1));
+  XV_OBL("rlist.delete.own_deleter_once", list == 0 && !g_double_delete);
+  if (in_na == 0) XV_CANARY("delobj.empty");
+  if (in_na == XV_L) XV_CANARY("delobj.full");
+}
+
+/* =============================== retire_list =============================== */
+static _Bool rl_inv(const struct retire_list* l, unsigned n) {   /* representation invariant: chain A, last = its final node */
+  return is_chain(l->_nodes.first, 0, 1, 0) && (n == 0 ? (l->_nodes.first == 0 && l->_nodes.last == 0) : l->_nodes.last == nodeA(n - 1));
+}
+void h_rl(void) {
+  havoc_pool(); havoc_inputs();
+  struct retire_list l; l._nodes.first = link_chain(in_na, in_a, 0); l._nodes.last = in_na ? nodeA(in_na - 1) : (struct node*)0;
+  XV_ASSUME(rl_inv(&l, in_na));
+  take_snap();
+  unsigned j = nondet_uint(); XV_ASSUME(j < NN);
+  unsigned op = nondet_uint();
+  if (op == 0) {               /* push a node that is in no list */
+    XV_ASSUME(in_na < XV_L);   /* shape: the result has at most XV_L nodes */
+    struct node* x = &pool[in_x]; struct node* old_first = l._nodes.first;
+    rl_push(&l, x);
+    XV_OBL("rlist.conserve", l._nodes.first == x && x->next == old_first && is_chain(x->next, 0, 1, 0));
+    XV_OBL("rlist.conserve", l._nodes.last == (in_na ? nodeA(in_na - 1) : x) && l._nodes.last->next == 0);
+    XV_OBL("rlist.conserve", same_as_snap(j, j != in_x));
+    if (in_na == 0) XV_CANARY("rl.push_empty"); else XV_CANARY("rl.push_nonempty");
+  } else if (op == 1) {
+    struct retired_nodes r = rl_steal(&l);
+    XV_OBL("rlist.conserve", is_chain(r.first, 0, 1, 0) && r.last == (in_na ? nodeA(in_na - 1) : (struct node*)0) && (r.first == 0) == (in_na == 0));
+    XV_OBL("rlist.conserve", l._nodes.first == 0 && l._nodes.last == 0);
+    XV_OBL("rlist.conserve", same_as_snap(j, 1));
+    if (in_na) XV_CANARY("rl.steal");
+  } else if (op == 2) {
+    _Bool e = rl_empty(&l);
+    XV_OBL("rlist.conserve", e == (in_na == 0) && rl_inv(&l, in_na) && same_as_snap(j, 1));
+    if (e) XV_CANARY("rl.empty_true"); else XV_CANARY("rl.empty_false");
+  } else {
+    struct retire_list f; f._nodes.first = nondet_node(); f._nodes.last = nondet_node();
+    rl_ctor(&f);
+    XV_OBL("rlist.conserve", f._nodes.first == 0 && f._nodes.last == 0 && same_as_snap(j, 1));
+  }
+}
+
+/* =============================== counting_retire_list =============================== */
+void h_crl(void) {
+  havoc_pool(); havoc_inputs();
+  struct counting_retire_list c; c.list._nodes.first = link_chain(in_na, in_a, 0); c.list._nodes.last = in_na ? nodeA(in_na - 1) : (struct node*)0;
+  c.counter = nondet_size(); XV_ASSUME(c.counter == in_na);                       /* invariant: counter == length */
+  take_snap(); unsigned j = nondet_uint(); XV_ASSUME(j < NN);
+  XV_OBL("rlist.counting.counter_is_length", crl_size(&c) == in_na && crl_empty(&c) == (in_na == 0));
+  if (nondet_bool()) {
+    XV_ASSUME(in_na < XV_L);
+    struct node* x = &pool[in_x]; struct node* old_first = c.list._nodes.first;
+    crl_push(&c, x);
+    XV_OBL("rlist.counting.counter_is_length", c.counter == in_na + 1 && crl_size(&c) == in_na + 1);
+    XV_OBL("rlist.conserve", c.list._nodes.first == x && x->next == old_first && is_chain(x->next, 0, 1, 0) && c.list._nodes.last == (in_na ? nodeA(in_na - 1) : x));
+    XV_OBL("rlist.conserve", same_as_snap(j, j != in_x));
+    XV_CANARY("crl.push");
+  } else {
+    struct retired_nodes r = crl_steal(&c);
+    XV_OBL("rlist.counting.counter_is_length", c.counter == 0 && crl_empty(&c));
+    XV_OBL("rlist.conserve", is_chain(r.first, 0, 1, 0) && r.last == (in_na ? nodeA(in_na - 1) : (struct node*)0) && c.list._nodes.first == 0 && c.list._nodes.last == 0);
+    XV_OBL("rlist.conserve", same_as_snap(j, 1));
+    if (in_na) XV_CANARY("crl.steal");
+  }
+}
+
+/* =============================== orphan_list =============================== */
+void h_ol_add(void) {           /* SEQ: head -> B; add(A) => head -> A ++ B */
+  havoc_pool(); havoc_inputs(); XV_ASSUME(in_na >= 1);
+  struct orphan_list ol; ol.head = link_chain(in_nb, in_b, 0);
+  struct retired_nodes nodes; nodes.first = link_chain(in_na, in_a, nondet_node()); nodes.last = nodeA(in_na - 1);
+  g_first = nodes.first; g_last = nodes.last; g_head0 = ol.head; mon_ol = &ol; mon_last = nodes.last;
+  take_snap(); unsigned j = nondet_uint(); XV_ASSUME(j < NN);
+  ol_add(&ol, nodes);
+  XV_OBL("rlist.conserve", ol.head == nodeA(0) && is_chain(ol.head, 0, 1, 1));
+  XV_OBL("rlist.conserve", same_as_snap(j, j != in_a[in_na - 1]));
+  XV_OBL("rlist.orphans.sync", mon_cas_ok_n == 1 && XV_IS_RELEASE(mon_cas_order));
+  if (in_nb == 0) XV_CANARY("ol_add.empty"); else XV_CANARY("ol_add.nonempty");
+}
+void h_ol_adopt(void) {
+  havoc_pool(); havoc_inputs();
+  struct orphan_list ol; ol.head = link_chain(in_nb, in_b, 0); mon_ol = &ol;
+  take_snap(); unsigned j = nondet_uint(); XV_ASSUME(j < NN);
+  struct node* r = ol_adopt(&ol);
+  XV_OBL("rlist.conserve", is_chain(r, 0, 0, 1) && ol.head == 0 && same_as_snap(j, 1));
+  if (r) { XV_OBL("rlist.orphans.sync", mon_xchg_n == 1 && XV_IS_ACQUIRE(mon_xchg_order)); XV_CANARY("ol_adopt.some"); } else XV_CANARY("ol_adopt.null");
+}
+void h_ol_add_int(void) {
+#ifdef XV_INT
+  havoc_pool(); havoc_inputs(); XV_ASSUME(in_na >= 1);
+  struct orphan_list ol; ol.head = nondet_node();
+  struct retired_nodes nodes; nodes.first = link_chain(in_na, in_a, nondet_node()); nodes.last = nodeA(in_na - 1);
+  g_first = nodes.first; g_last = nodes.last; mon_ol = &ol; mon_last = nodes.last;
+  take_snap(); unsigned j = nondet_uint(); XV_ASSUME(j < NN);
+  env_on = 1; env_changes = 0;
+  ol_add(&ol, nodes);
+  env_on = 0;
+  /* at the one successful CAS: the chain A was complete, its tail pointed to the value the CAS compared head with, and head became A's first node */
+  XV_OBL("rlist.orphans.add.commit", mon_cas_ok_n == 1 && mon_store_n == 0 && mon_xchg_n == 0);
+  XV_OBL("rlist.orphans.add.commit", mon_cas_d == nodeA(0) && mon_cas_lastnext == mon_cas_e);
+  XV_OBL("rlist.orphans.add.commit", chainA_intact() && nodeA(in_na - 1)->next == mon_cas_e);     /* own nodes not written after publication */
+  XV_OBL("rlist.orphans.add.commit", same_as_snap(j, j != in_a[in_na - 1]));
+  XV_OBL("rlist.orphans.sync", XV_IS_RELEASE(mon_cas_order));
+  XV_CANARY("ol_add_int.done");
+  if (mon_cas_n > 1) XV_CANARY("ol_add_int.retried");
+#endif
+}
+void h_ol_adopt_int(void) {
+#ifdef XV_INT
+  havoc_pool(); havoc_inputs();
+  struct orphan_list ol; ol.head = nondet_node(); mon_ol = &ol;
+  take_snap(); unsigned j = nondet_uint(); XV_ASSUME(j < NN);
+  env_on = 1; env_changes = 0;
+  struct node* r = ol_adopt(&ol);
+  env_on = 0;
+  XV_OBL("rlist.orphans.adopt.atomic", mon_cas_n == 0 && mon_store_n == 0 && mon_xchg_n <= 1 && same_as_snap(j, 1));
+  if (mon_xchg_n) { XV_OBL("rlist.orphans.adopt.atomic", r == mon_xchg_old && mon_xchg_new == 0); XV_OBL("rlist.orphans.sync", XV_IS_ACQUIRE(mon_xchg_order)); }
+  else XV_OBL("rlist.orphans.adopt.atomic", r == 0);
+  if (r) XV_CANARY("ol_adopt_int.some"); else XV_CANARY("ol_adopt_int.null");
+  if (mon_xchg_n && r == 0) XV_CANARY("ol_adopt_int.raced");
+#endif
+}
+
+/* =============================== orphan::~orphan =============================== */
+void h_orphan_dtor(void) {
+#ifdef XV_REAL_DELETE_OBJECTS
+  /* three disjoint lists (WLOG list e = pool[e*L .. e*L+cnt[e]-1]) and the node pool[3L] outside */
+  havoc_pool();
+  struct orphan o; o.target_epoch = nondet_uint(); unsigned cnt[EPOCHS];
+  for (unsigned e = 0; e < EPOCHS; e++) { cnt[e] = nondet_uint(); XV_ASSUME(cnt[e] <= XV_L);
+    struct node* first = 0;
+    for (unsigned i = XV_L; i-- > 0;) if (i < cnt[e]) { pool[e * XV_L + i].next = first; first = &pool[e * XV_L + i]; first->deleted = 0; }
+    o.retire_lists[e] = first; }
+  take_snap(); unsigned j = nondet_uint(); XV_ASSUME(j < NN);
+  orphan_dtor(&o);
+  if (j < EPOCHS * XV_L && j % XV_L < cnt[j / XV_L]) XV_OBL("rlist.orphan.dtor.deletes_all", pool[j].deleted == 1 && pool[j].deleted_by == snap[j].buf.id);
+  else XV_OBL("rlist.orphan.dtor.deletes_all", same_as_snap(j, 1));
+  XV_OBL("rlist.orphan.dtor.deletes_all", !g_double_delete);
+  if (cnt[0] == XV_L && cnt[2] >= 1) XV_CANARY("orphan_dtor.done");
+#endif
+}
